@@ -80,6 +80,10 @@ def main(argv=None):
         except AnalysisError as e:
             print('ANALYSIS-ERROR engine %s' % e)
             return 2
+        except Exception:
+            print('ANALYSIS-ERROR engine internal error')
+            print(traceback.format_exc())
+            return 2
         for p in ALL:
             if not have_rule(p):
                 continue
@@ -110,4 +114,13 @@ def main(argv=None):
 
 
 if __name__ == '__main__':
-    sys.exit(main())
+    try:
+        rc = main()
+    except SystemExit:
+        raise
+    except BaseException:
+        # a crash of the checker is never a verdict
+        sys.stdout.write('ANALYSIS-ERROR internal error of the checker\n')
+        sys.stdout.write(traceback.format_exc())
+        rc = 2
+    sys.exit(rc)
